@@ -446,6 +446,21 @@ pub fn run(tier: Tier) -> i32 {
         extra: vec![],
     });
 
+    // scripts over the public reader interface that concern this property (shared with C11)
+    {
+        let (n, viols) = super::c11::scripts_for("C02", "projected-weights", tier);
+        for (k, w, j) in viols {
+            rep.violation(k, w, j);
+        }
+        rep.part(Part {
+            name: "lib: projected sites dropped and weighted".into(),
+            evaluations: n,
+            nontrivial: n,
+            note: "every sequence of 1..3 (thorough 4) symbols over {six record kinds, a change of the column layout} under five projection set-ups x the ways of using the sites handed out {add, drop, weight -1, weight 0.5, weight 3 then 2}: the spectrum is the weighted sum of the rows' own hypergeometric contributions".into(),
+            exhaustive: true,
+            extra: vec![],
+        });
+    }
     // L2
     let scratch = Scratch::new("c02");
     let rows = l2_rows();
@@ -532,6 +547,7 @@ pub fn replay(case: &J) -> Option<Vec<String>> {
             let what = case.get("what")?.as_str()?.to_string();
             Some(eval_one(n, t, a, m, &what).into_iter().map(|(k, w, _)| format!("{k} :: {w}")).collect())
         }
+        "c02-script" => super::c11::replay_script(case),
         "c02-cli" => {
             let argv: Vec<String> = case.get("argv")?.as_arr()?.iter().filter_map(|x| x.as_str().map(|s| s.to_string())).collect();
             let a: Vec<&str> = argv.iter().map(|s| s.as_str()).collect();
